@@ -119,6 +119,7 @@ func cmdCheck(args []string) int {
 	only := fs.String("only", "", "only functions whose name matches this regular expression")
 	verbose := fs.Bool("v", false, "verbose")
 	dump := fs.String("dump", "", "dump SMT of obligations whose name contains this to stdout")
+	noReplay := fs.Bool("noreplay", false, "do not replay counterexamples (must-fail corpus: only the verdict matters)")
 	onlyFiles := fs.String("onlyfiles", "", "comma-separated source file suffixes: only functions defined there (skips the count guard)")
 	counts := fs.String("counts", "/verif/spec/expected_counts.json", "expected obligation counts")
 	updateCounts := fs.Bool("update-counts", false, "rewrite expected counts for this property")
@@ -316,7 +317,12 @@ func cmdCheck(args []string) int {
 	}
 	for _, o := range failed {
 		violations++
-		rep := Replay(g, *repo, *replayDir, *prop, o, results)
+		var rep ReplayResult
+		if *noReplay {
+			rep = ReplayResult{Path: "-"}
+		} else {
+			rep = Replay(g, *repo, *replayDir, *prop, o, results)
+		}
 		suffix := ""
 		if !rep.Reproduced {
 			suffix = " no-failing-input-found"
